@@ -404,3 +404,42 @@ Proof.
   fold lz in Ez. rewrite Ea in Ez. inversion Ez; subst. lia.
 Qed.
 End Order.
+
+(* ---- the allocated ids as broker ids (N): every id is a uint32 value, so the passage to N keeps them distinct *)
+Lemma id_step_out_range s e :
+  Forall (fun v => 0 <= v) (i_out s) -> Forall (fun v => 0 <= v) (i_out (id_step s e)).
+Proof.
+  intros H. destruct e as [t|t|t]; cbn [id_step i_out]; auto.
+  - apply Forall_app. split; [exact H|]. constructor; [|constructor]. unfold wrap32. apply Z.mod_pos_bound. lia.
+  - destruct (lookup_nat t (i_local s)); cbn [i_out]; auto.
+    apply Forall_app. split; [exact H|]. constructor; [|constructor]. unfold wrap32. apply Z.mod_pos_bound. lia.
+Qed.
+
+Lemma ids_of_nonneg s0 sched : Forall (fun v => 0 <= v) (ids_of s0 sched).
+Proof.
+  unfold ids_of.
+  assert (G : forall sch s, Forall (fun v => 0 <= v) (i_out s) -> Forall (fun v => 0 <= v) (i_out (fold_left id_step sch s))).
+  { induction sch as [|e sch IH]; intros s H; cbn [fold_left]; [exact H|]. apply IH. apply id_step_out_range. exact H. }
+  apply G. constructor.
+Qed.
+
+Lemma nodup_map_on {A B} (f : A -> B) (l : list A) :
+  NoDup l -> (forall x y, In x l -> In y l -> f x = f y -> x = y) -> NoDup (map f l).
+Proof.
+  induction l as [|a l IH]; intros Hnd Hinj; cbn; [constructor|].
+  inversion Hnd as [|? ? Hna Hnd']; subst. constructor.
+  - intros Hin. apply in_map_iff in Hin. destruct Hin as (x & Hfx & Hx).
+    apply Hna. rewrite (Hinj a x (or_introl eq_refl) (or_intror Hx) (eq_sym Hfx)). exact Hx.
+  - apply IH; [exact Hnd'|]. intros x y Hx Hy. apply Hinj; right; assumption.
+Qed.
+
+Theorem nextid_calls_distinct_N atomic (calls : list nat) (counter : Z) :
+  atomic = true -> (Z.of_nat (List.length calls) <= 4294967296)%Z ->
+  NoDup (map Z.to_N (ids_of counter (List.concat (map (nextid_events atomic) calls)))).
+Proof.
+  intros Ha Hn. apply nodup_map_on.
+  - exact (nextid_calls_distinct atomic calls counter Ha Hn).
+  - pose proof (ids_of_nonneg counter (List.concat (map (nextid_events atomic) calls))) as Hpos.
+    rewrite Forall_forall in Hpos. intros x y Hx Hy E.
+    apply Hpos in Hx. apply Hpos in Hy. apply (f_equal Z.of_N) in E. rewrite !Z2N.id in E by assumption. exact E.
+Qed.
